@@ -78,7 +78,7 @@ def start_point(name, n, salt=0, off=0):
 
 def cases(tier, salts):
     out = []
-    ns = [1, 2, 3] if tier == "quick" else [1, 2, 3, 4, 6]
+    ns = [1, 2, 3, 6] if tier == "quick" else [1, 2, 3, 4, 5, 6]
     for salt in salts:
         for n in ns:
             nb = len(set_bank(n))
@@ -281,7 +281,7 @@ def run(report, tier, seed):
                    "(DESIGN.md 4 C15)")
     cov["distinct_nontrivial"] = int(tags.get("many_sweeps", 0))
     cov["salts"] = salts
-    report.assumptions += ["n<=3 (quick) / n<=6 (thorough); bank of 9 sets with a common interior point",
+    report.assumptions += ["n in {1,2,3,6} (quick) / 1..6 (thorough; selections of <=2 sets for n>3); bank of 9 sets with a common interior point",
                            "near-optimality clause restricted to tol<=1e-8: for looser user tolerances a correct iteration "
                            "may stop further than 1e-3 from the projection (a fact about the algorithm, see DESIGN.md)"]
 
